@@ -11,7 +11,7 @@ from vlib.ref import bip39 as R39
 from vlib.util import call
 
 PROPERTY_ID = "C08"
-OPTIMIZED = ['history', 'os-source-unavailable', 'bit-variation', 'invalid-master-fault']   # clauses run a second time under `python -O` (assert statements stripped)
+OPTIMIZED = ['history', 'os-source-unavailable', 'bit-variation', 'invalid-master-fault', 'os-bit-influence']   # clauses run a second time under `python -O` (assert statements stripped)
 RULE = ("histories of up to 30 steps over {reseed(s) of the process-wide PRNG, new(api, words), reseed-pair(s, api, "
         "words)} with api in {BaseWallet.new_wallet, PaperWallet.new_wallet, BaseWallet.from_entropy_bits, "
         "mnemonic_from_entropy_bits, CLI 'new'} and words in {12,15,18,21,24}; os.urandom / random._urandom are wrapped "
@@ -23,7 +23,7 @@ ASSUMPTIONS = ["the per-bit clause establishes variation (each of the ENT positi
                "with the negligible probabilities stated"]
 WORDS = [12, 15, 18, 21, 24]
 APIS = ["BaseWallet.new_wallet", "PaperWallet.new_wallet", "BaseWallet.from_entropy_bits", "mnemonic_from_entropy_bits",
-        "cli-new"]
+        "cli-new", "cli-new-paranoia"]      # the last one prints no sentence: only the bytes requested can be judged
 
 
 def ent_bits(words):
@@ -44,6 +44,11 @@ def create(api, words):
             s = BaseWallet.from_entropy_bits(entropy_bits=ent_bits(words)).mnemonic
         elif api == "mnemonic_from_entropy_bits":
             s = bip39.mnemonic_from_entropy_bits(ent_bits(words))
+        elif api == "cli-new-paranoia":
+            r = cli.run_main(["--paranoia", "--interval", "0", "1", "new", "--mnemonic-len", str(words)])
+            if r["status"] != 0:
+                raise RuntimeError("cli --paranoia new failed: %r" % (r["err"][:200],))
+            s = NO_SENTENCE
         else:
             r = cli.run_main(["--interval", "0", "0", "new", "--mnemonic-len", str(words)])
             if r["status"] != 0:
@@ -52,8 +57,16 @@ def create(api, words):
     return s, rec["bytes"]
 
 
+NO_SENTENCE = "<paranoia output shows no sentence>"
+
+
 def judge_one(api, words, sentence, os_bytes, where):
     ent = ent_bits(words)
+    if sentence == NO_SENTENCE:
+        if os_bytes * 8 < ent:
+            raise Violation("C08/os-source/too-few-bits-requested", "%s %s(%d words) requested %d bytes from the OS random "
+                            "source, %d bits are needed" % (where, api, words, os_bytes, ent))
+        return None
     if not isinstance(sentence, str):
         raise Violation("C08/new/no-sentence", "%s %s(%d) gave %r" % (where, api, words, sentence))
     dec = R39.decode(sentence)
@@ -67,7 +80,7 @@ def judge_one(api, words, sentence, os_bytes, where):
 
 def gen_history(tier):
     seed_vals = st.one_of(st.integers(0, 2 ** 64), st.binary(max_size=8), st.text(max_size=6), st.sampled_from([0, 1, 42]))
-    api = st.sampled_from(APIS[:4] + APIS[:4] + APIS[4:])
+    api = st.sampled_from(APIS[:4] + APIS[:4] + APIS[4:] + APIS[5:])
     step = st.one_of(
         st.tuples(st.just("reseed"), seed_vals, st.none(), st.none()),
         st.tuples(st.just("new"), st.none(), api, st.sampled_from(WORDS)),
@@ -96,11 +109,13 @@ def check_history(case, ctx):
                 random.seed(s)
                 b, nb = create(api, words)
                 judge_one(api, words, b, nb, where)
-                if a == b:
+                if a == b and a != NO_SENTENCE:
                     raise Violation("C08/repeat/same-wallet-after-reseed", "%s: %s(%d words) produced the same sentence "
                                     "twice after random.seed(%r): %r" % (where, api, words, s, a))
                 sents = [a, b]
             for sent in sents:
+                if sent == NO_SENTENCE:
+                    continue
                 if sent in seen:
                     raise Violation("C08/repeat/two-fresh-wallets-coincide", "%s and step %d produced the same sentence %r"
                                     % (where, seen[sent], sent))
@@ -125,7 +140,7 @@ def key_history(case):
 
 def enum_bits(tier):
     import os
-    for api in (APIS[:4] if os.environ.get("VERIF_SUBRUN") == "1" else APIS):
+    for api in (APIS[:4] if os.environ.get("VERIF_SUBRUN") == "1" else APIS[:5]):
         for words in WORDS:
             yield {"api": api, "words": words, "samples": 96 if tier == "quick" else 192}
 
@@ -210,10 +225,47 @@ def check_invalid_master(case, ctx):
     for st_, res, _ in (a, b):
         if st_ == "ok":
             judge_one(case["api"], case["words"], res[0], res[1], "after an invalid first master key")
-    if a[0] == "ok" and b[0] == "ok" and a[1][0] == b[1][0]:
+    if a[0] == "ok" and b[0] == "ok" and a[1][0] == b[1][0] and a[1][0] != NO_SENTENCE:
         raise Violation("C08/repeat/same-wallet-after-reseed[invalid-master-retry]", "%s(%d words): when the first master key "
                         "is invalid (IL %s) the wallet handed out instead is %r both times after random.seed(%r)"
                         % (case["api"], case["words"], case["il"], a[1][0], case["seed"]))
+
+
+def check_influence(case, ctx):
+    """The OS source is scripted (a fixed stream); then each single bit of the bytes the creation consumed is inverted in
+    turn.  At least ENT of those bits must change the resulting sentence: a sentence that depends on fewer OS bits than
+    ENT does not carry its full entropy, however many bytes were requested."""
+    api, words = case["api"], case["words"]
+    ent = ent_bits(words)
+    state = random.getstate()
+    try:
+        with patch.os_random_scripted(case["seed"]) as st0:
+            st_, res = call(create, api, words)
+        if st_ == "exc":
+            raise Violation("C08/influence/raised", "%s(%d words) raised %r with a scripted OS source" % (api, words, res))
+        base, consumed = res[0], st0["pos"]
+        if consumed == 0:
+            ctx.count("scripted-source-not-consulted (not judged)")
+            ctx.nontrivial = False
+            return
+        judge_one(api, words, base, consumed, "scripted OS source")
+        influential = 0
+        dead = []
+        for j in range(consumed * 8):
+            with patch.os_random_scripted(case["seed"], flip_bit=j):
+                st_, r2 = call(create, api, words)
+            if st_ == "exc" or r2[0] != base:
+                influential += 1
+            else:
+                dead.append(j)
+        ctx.count("__extra_evals__", consumed * 8)
+        ctx.count("__extra_nontrivial__", consumed * 8)
+        if influential < ent:
+            raise Violation("C08/influence/too-few-os-bits-matter", "%s(%d words): the creation consumed %d bytes from the OS source, "
+                            "but inverting single bits of them changes the sentence for only %d positions (ENT = %d); e.g. bits %r "
+                            "have no effect" % (api, words, consumed, influential, ent, dead[:12]))
+    finally:
+        random.setstate(state)
 
 
 def clauses():
@@ -239,6 +291,14 @@ def clauses():
                enum=lambda tier: [{"api": a_, "words": w_, "il": i_, "seed": 11} for a_ in APIS[:3] + APIS[4:] for w_ in WORDS
                                   for i_ in ("zero", "n", "ff")],
                exhaustive=True, enum_desc="4 wallet-creating apis x 5 lengths x 3 invalid IL values", shards={"quick": 8, "thorough": 8}),
+        Clause("os-bit-influence", check_influence,
+               "the OS source is replaced by a fixed scripted stream and each bit of the bytes a creation consumed is inverted in "
+               "turn (128..256+ re-creations per api x length): at least ENT of those bits must change the sentence - a "
+               "necessary condition for 'full entropy from the OS' that counting requested bytes cannot give",
+               enum=lambda tier: [{"api": a_, "words": w_, "seed": b"infl-%d" % j_} for a_ in APIS[:4] for w_ in WORDS
+                                  for j_ in range(1 if tier == "quick" else 3)],
+               exhaustive=True, enum_desc="4 apis x 5 lengths x 1 (quick) / 3 (thorough) scripted streams, every consumed bit",
+               shards={"quick": 16, "thorough": 16}),
         Clause("bit-variation", check_bits,
                "for each api x length: 96 (quick) / 192 (thorough) fresh wallets; every one of the ENT bit positions, "
                "explicitly including bit ENT-1, must be seen as 0 and as 1; no two wallets coincide",
